@@ -27,3 +27,31 @@ contract(
     loops={1: {"invariant": "min_ <= sden(visited) and sden(visited) <= max_ and "
                             "implies(allconst(visited), min_ == sden(visited) and max_ == sden(visited))"}},
 )
+
+# the two degree-2 names are the same functions
+contract("qubovert.utils._approximate_extrema:approximate_qubo_extrema", props=["C15"],
+         instances=[{"Q": d["P"]} for d in _DICTLIKE_B], returns="tuple:real,real",
+         ensures=["result[0] <= bden(Q)", "bden(Q) <= result[1]",
+                  "implies(allconst(Q), result[0] == bden(Q) and result[1] == bden(Q))"])
+contract("qubovert.utils._approximate_extrema:approximate_quso_extrema", props=["C15"],
+         instances=[{"L": d["H"]} for d in _DICTLIKE_S], returns="tuple:real,real",
+         ensures=["result[0] <= sden(L)", "sden(L) <= result[1]",
+                  "implies(allconst(L), result[0] == sden(L) and result[1] == sden(L))"])
+
+# ---- anneal_temperature_range: T0 >= Tf >= 0, (0, 0) for a model without variables
+# A model object is required to report (at least) the labels of its stored keys as variables - the C14 invariant.
+_ADM = ("start_flip_prob < 0 or start_flip_prob >= 1 or end_flip_prob < 0 or end_flip_prob >= 1 or "
+        "end_flip_prob > start_flip_prob")
+contract("qubovert.sim._anneal_temperature_range:anneal_temperature_range", props=["C15"],
+         instances=[{"model": d["H"], "start_flip_prob": "real", "end_flip_prob": "real", "spin": "const:True"}
+                    for d in _DICTLIKE_S] +
+                   [{"model": d["P"], "start_flip_prob": "real", "end_flip_prob": "real", "spin": "const:False"}
+                    for d in _DICTLIKE_B],
+         requires=["wf(model) if not typeis(model, 'dict') else True",
+                   "keys_within(model, model._variables) if not typeis(model, 'dict') else True"],
+         raises=[("ValueError", _ADM)],
+         returns="tuple:real,real",
+         ensures=["result[0] >= result[1]", "result[1] >= 0",
+                  "implies(allconst(model), result[0] == 0 and result[1] == 0)"],
+         note="log is an uninterpreted monotone function, negative on (0, 1); min / max / sum over the terms are the "
+              "extremal folds of vf/qvc/folds.py (bounds instantiated at witness keys and labels)")
